@@ -217,6 +217,10 @@ func (z *byz) block() *ref.WBlock {
 		for i := range big {
 			big[i] = 'a'
 		}
+		// not a valid pattern: matching 70 kB of text against 70 kB of literal pattern costs the
+		// regexp engine minutes of real time, which the fake clock never sees (a run that takes more
+		// than 40 s of real time is reported as a harness hang, exit 2)
+		big[len(big)-1] = '('
 		z.syms = append(z.syms, string(big))
 	}
 	b.Symbols = z.syms
